@@ -68,6 +68,12 @@ func (vm *VM) runRecoverable() (err error) {
 	defer func() {
 		if panicking {
 			msg := recover()
+			if vm.inNative {
+				// A native function panicked: restore the frame pointer
+				// of the function that called it.
+				vm.fp = vm.nativeFp
+				vm.inNative = false
+			}
 			err = vm.convertPanic(msg)
 		}
 	}()
